@@ -17,7 +17,12 @@ use saito_core::core::consensus::slip::{Slip, SlipType};
 use saito_core::core::consensus::transaction::{Transaction, TransactionType};
 use saito_core::core::consensus::wallet::Wallet;
 use saito_core::core::defs::{SaitoPrivateKey, SaitoPublicKey};
+use saito_core::core::consensus::blockchain::Blockchain;
+use saito_core::core::consensus::peers::peer_collection::PeerCollection;
+use saito_core::core::consensus_thread::ConsensusEvent;
+use saito_core::core::defs::{StatVariable, STAT_BIN_COUNT};
 use saito_core::core::util::crypto::verify_signature;
+use saito_core::core::verification_thread::VerificationThread;
 use verif_harness::chainsim::futures_catch;
 use verif_harness::common::{Args, Summary};
 use verif_harness::gal;
@@ -47,6 +52,8 @@ enum Needs {
     Staking,
     /// a world whose transfers paid fees, so that fee transactions with payouts are on chain
     Payouts,
+    /// a world in which a competing two-block branch can be built (no staking, window not wrapped)
+    Fork,
 }
 
 #[derive(Clone, Copy, PartialEq, Debug)]
@@ -94,6 +101,51 @@ const EDITS: &[Edit] = &[
     ed("type-atr-forged", Reject, Needs::Fresh),
     ed("output-sum-wraps-u64", Reject, Needs::Fresh),
     ed("expired-input", Reject, Needs::Wrapped),
+    // the edge of the retention window (Transaction::validate's age rule, /repo bb88717): with the
+    // tip at L, an output of block L+1-gp can be spent in the next block, one of block L-gp -- still
+    // in the ledger, the next block is the one that rebroadcasts it -- cannot
+    ed("window-edge-last-valid", Accept, Needs::Wrapped),
+    ed("window-edge-first-expired", Reject, Needs::Wrapped),
+    ed("window-edge-expired-second-input", Reject, Needs::Wrapped),
+    ed("window-edge-expired-in-nft-create", Reject, Needs::Wrapped),
+    ed("window-edge-expired-in-stake-tx", Reject, Needs::Wrapped),
+    // the same edge for an output that is itself a rebroadcast (slip type ATR), in deeper worlds
+    ed("window-edge-first-expired-atr", Reject, Needs::Wrapped),
+    ed("window-edge-last-valid-atr", Accept, Needs::Wrapped),
+    // a fork block that was rejected inside a reorganisation leaves nothing behind: the output
+    // it tried to spend (which no block ever created) is still unspendable afterwards
+    ed("input-of-rejected-fork-block", Reject, Needs::Fork),
+    ed("input-of-rejected-first-fork-block", Reject, Needs::Fork),
+    // duplicates of value-carrying slips that are not Normal slips (signed by their owner)
+    ed("duplicate-input-in-tx-atr", Reject, Needs::Wrapped),
+    ed("duplicate-input-in-tx-block-stake", Reject, Needs::Staking),
+    ed("duplicate-input-in-tx-miner-output", Reject, Needs::Payouts),
+    ed("duplicate-input-in-tx-router-output", Reject, Needs::Payouts),
+    Edit { name: "same-input-in-two-txs-atr", expect: Reject, known: None, needs: Needs::Wrapped, venues: Venues::BlockOnly, stake_slot: false },
+    Edit { name: "same-input-in-two-txs-block-stake", expect: Reject, known: None, needs: Needs::Staking, venues: Venues::BlockOnly, stake_slot: false },
+    Edit { name: "same-input-in-two-txs-miner-output", expect: Reject, known: None, needs: Needs::Payouts, venues: Venues::BlockOnly, stake_slot: false },
+    // user-transaction types that must get no exemption
+    ed("type-golden-ticket-zero-signature", Reject, Needs::Fresh),
+    ed("type-golden-ticket-foreign-input", Reject, Needs::Fresh),
+    ed("type-golden-ticket-outputs-exceed-inputs", Reject, Needs::Fresh),
+    ed("type-vip-zero-signature", Reject, Needs::Fresh),
+    ed("type-vip-foreign-input", Reject, Needs::Fresh),
+    ed("type-vip-outputs-exceed-inputs", Reject, Needs::Fresh),
+    // SPV placeholders that name inputs (unsigned: they would burn the input into fees)
+    ed("type-spv-burns-own-input", Reject, Needs::Fresh),
+    ed("type-spv-burns-foreign-input", Reject, Needs::Fresh),
+    ed("type-spv-empty", Observe, Needs::Fresh),
+    // the signed bytes carry no slip counts: from=[a] to=[b, c] signs like from=[a, b'] to=[c]
+    edk("resplit-output-as-input", "signed-bytes-not-delimited", Needs::Fresh),
+    // one signed field changed after signing, signature kept: pins what the signature covers
+    ed("tamper-after-signing-output-amount", Reject, Needs::Fresh),
+    ed("tamper-after-signing-output-key", Reject, Needs::Fresh),
+    ed("tamper-after-signing-output-type", Reject, Needs::Fresh),
+    ed("tamper-after-signing-input-key", Reject, Needs::Fresh),
+    ed("tamper-after-signing-data", Reject, Needs::Fresh),
+    ed("tamper-after-signing-timestamp", Reject, Needs::Fresh),
+    ed("tamper-after-signing-tx-type", Reject, Needs::Fresh),
+    ed("tamper-after-signing-replacements", Reject, Needs::Fresh),
     ed("unsigned-other-key", Reject, Needs::Fresh),
     // foreign inputs that are not Normal slips: payouts of fee transactions, rebroadcast
     // outputs, stakes (the ownership rule covers every slip type but Bound)
@@ -136,7 +188,8 @@ const EDITS: &[Edit] = &[
     ed("bound-create-foreign-input", Reject, Needs::Nft),
     ed("bound-create-slip3-nonzero", Reject, Needs::Nft),
     ed("bound-create-inflated", Reject, Needs::Nft),
-    ed("bound-create-extra-bound-output", Observe, Needs::Nft),
+    // since /repo 5a3c1b6 the outputs after the three NFT slips must be Normal
+    ed("bound-create-extra-bound-output", Reject, Needs::Nft),
     ed("bound-slip-in-normal-tx-output", Reject, Needs::Nft),
     ed("bound-slip-in-normal-tx-input", Reject, Needs::Nft),
     Edit { name: "bound-same-nft-twice-in-block", expect: Reject, known: Some("bound-double-spend-in-block"), needs: Needs::Nft, venues: Venues::BlockOnly, stake_slot: false },
@@ -211,6 +264,16 @@ struct World {
     foreign_stake: Option<Slip>,
     /// an unspent rebroadcast output of the attacker
     own_atr: Option<Slip>,
+    /// the attacker's chain: its current head (an output of the tip block) and the outputs it
+    /// left behind, by block id
+    chain_head: Slip,
+    left_behind: Vec<(u64, Slip)>,
+    /// unspent rebroadcast outputs (slip type ATR) of the attacker, by the block that carries them
+    own_atr_by_block: Vec<(u64, Slip)>,
+    /// the longest chain as delivered (pristine blocks): what the history oracle replays
+    history: Vec<Block>,
+    /// why a scripted scenario could not be played (reported as a failure of the property's setting)
+    scenario_failure: Option<String>,
 }
 
 struct Built {
@@ -257,12 +320,14 @@ async fn build_blocks(plan: Plan, rng: &mut Rng) -> Built {
     for k in 0..8u64 {
         issuance.push((node.pk, 5_000_000 + k));
     }
+    issuance.push((attacker.0, 900_000));
     let g = make_genesis(&node, 1_000_000, &issuance).await.unwrap();
     assert_eq!(node.add_block(g.clone()).await, AddClass::OnChain);
     let mut blocks = vec![g.clone()];
     let a_slips: Vec<Slip> = (0..8).map(|k| g.transactions[k].to[0].clone()).collect();
     let v_slips: Vec<Slip> = (8..14).map(|k| g.transactions[k].to[0].clone()).collect();
     let mut fill = g.transactions[14].to[0].clone();
+    let mut head = g.transactions[23].to[0].clone();
     let mut aw = Wallet::new(attacker.1, attacker.0);
     let mut vw = Wallet::new(victim.1, victim.0);
     aw.on_chain_reorganization(&g, true, plan.gp);
@@ -275,6 +340,11 @@ async fn build_blocks(plan: Plan, rng: &mut Rng) -> Built {
         let f = make_tx(&[fill.clone()], &[(filler.0, fill.amount - plan.fee)], &filler.1, ts);
         let fsig = f.signature;
         txs.push(f);
+        // the attacker leaves an output of 1000 + block id behind in every block (slip index 1)
+        let left = 1000 + parent.id + 1;
+        let h = make_tx(&[head.clone()], &[(attacker.0, head.amount - left), (attacker.0, left)], &attacker.1, ts);
+        let hsig = h.signature;
+        txs.push(h);
         if i == 0 {
             // the attacker spends slip 0 (so it is "already spent" afterwards)
             txs.push(make_tx(&[a_slips[0].clone()], &[(attacker.0, a_slips[0].amount)], &attacker.1, ts));
@@ -330,6 +400,7 @@ async fn build_blocks(plan: Plan, rng: &mut Rng) -> Built {
         aw.on_chain_reorganization(&b, true, plan.gp);
         vw.on_chain_reorganization(&b, true, plan.gp);
         fill = b.transactions.iter().find(|t| t.signature == fsig).unwrap().to[0].clone();
+        head = b.transactions.iter().find(|t| t.signature == hsig).unwrap().to[0].clone();
         blocks.push(b.clone());
         parent = b;
     }
@@ -404,6 +475,36 @@ async fn fresh_world(built: &Built) -> World {
     let foreign_atr = find(SlipType::ATR, Some(TransactionType::ATR), false);
     let own_atr = find(SlipType::ATR, Some(TransactionType::ATR), true);
     let foreign_stake = find(SlipType::BlockStake, Some(TransactionType::BlockStake), false);
+    let mut left_behind = vec![];
+    let mut chain_head = g.transactions[23].to[0].clone();
+    for b in built.blocks.iter().skip(1) {
+        for t in b.transactions.iter() {
+            if t.transaction_type == TransactionType::Normal
+                && t.to.len() == 2
+                && t.to[0].public_key == attacker.0
+                && t.to[1].public_key == attacker.0
+                && t.to[1].amount == 1000 + b.id
+            {
+                left_behind.push((b.id, t.to[1].clone()));
+                chain_head = t.to[0].clone();
+            }
+        }
+    }
+    let mut own_atr_by_block = vec![];
+    for b in built.blocks.iter() {
+        for t in b.transactions.iter().filter(|t| t.transaction_type == TransactionType::ATR) {
+            for s in t.to.iter() {
+                if s.slip_type == SlipType::ATR
+                    && s.amount > 0
+                    && s.public_key == attacker.0
+                    && node.blockchain.utxoset.get(&s.utxoset_key).copied().unwrap_or(false)
+                    && !own_atr_by_block.iter().any(|(id, _)| *id == b.id)
+                {
+                    own_atr_by_block.push((b.id, s.clone()));
+                }
+            }
+        }
+    }
     World {
         plan,
         node,
@@ -430,7 +531,124 @@ async fn fresh_world(built: &Built) -> World {
         foreign_atr,
         foreign_stake,
         own_atr,
+        chain_head,
+        left_behind,
+        own_atr_by_block,
+        history: built.blocks.clone(),
+        scenario_failure: None,
     }
+}
+
+/// discrepancies between the real helper functions and the harness's own re-computation of
+/// them (utxo key from the slip's fields, the lock predicate), reported per case
+static DISCREPANCIES: std::sync::Mutex<Vec<String>> = std::sync::Mutex::new(Vec::new());
+
+/// the utxo key as the byte layout says: key(33) block_id(8) tx_ordinal(8) slip_index(1) amount(8) type(1)
+fn key_of(s: &Slip) -> [u8; 59] {
+    let mut k = [0u8; 59];
+    k[0..33].copy_from_slice(&s.public_key);
+    k[33..41].copy_from_slice(&s.block_id.to_be_bytes());
+    k[41..49].copy_from_slice(&s.tx_ordinal.to_be_bytes());
+    k[49] = s.slip_index;
+    k[50..58].copy_from_slice(&s.amount.to_be_bytes());
+    k[58] = s.slip_type as u8;
+    k
+}
+
+/// Blockchain::is_slip_unlocked re-stated: the ledger holds the key as spendable, and a BlockStake
+/// output is older than the stake period (block_id <= latest + 1 - period once latest > period)
+fn unlocked_independent(node: &Node, key: &[u8; 59]) -> bool {
+    if key[58] > SlipType::Bound as u8 {
+        return false;
+    }
+    if node.blockchain.utxoset.get(key).copied() != Some(true) {
+        return false;
+    }
+    if key[58] == SlipType::BlockStake as u8 {
+        let latest = node.blockchain.get_latest_block_id();
+        let period = node.params.social_stake_period;
+        let bound = if latest > period { latest + 1 - period } else { 0 };
+        if be64(&key[33..41]) > bound {
+            return false;
+        }
+    }
+    true
+}
+
+/// the node's utxo set against the history ledger, for outputs inside the window
+fn ledger_discrepancies(w: &World) -> Vec<String> {
+    let ledger = history_ledger(&w.history);
+    let latest = w.history.last().map(|b| b.id).unwrap_or(0);
+    let lo = (latest + 1).saturating_sub(w.plan.gp);
+    let mut v = vec![];
+    let mut real: BTreeSet<Vec<u8>> = BTreeSet::new();
+    for (k, sp) in w.node.blockchain.utxoset.iter() {
+        if *sp && be64(&k[33..41]) >= lo {
+            real.insert(k.to_vec());
+        }
+    }
+    for (k, created) in ledger.iter() {
+        if *created >= lo && !real.contains(k) {
+            v.push(format!("history has unspent output {}-{}-{} (amount {}, type {}), the utxo set does not", be64(&k[33..41]), be64(&k[41..49]), k[49], be64(&k[50..58]), k[58]));
+        }
+    }
+    for k in real.iter() {
+        if !ledger.contains_key(k) {
+            v.push(format!("the utxo set holds {}-{}-{} (amount {}, type {}) as spendable, no block of the chain left it unspent", be64(&k[33..41]), be64(&k[41..49]), k[49], be64(&k[50..58]), k[58]));
+        }
+    }
+    v.truncate(6);
+    v
+}
+
+/// the ledger as the history says it is: every output with an amount created by a block of the
+/// chain and not consumed by a later transaction of the chain -> the block that created it
+fn history_ledger(blocks: &[Block]) -> std::collections::BTreeMap<Vec<u8>, u64> {
+    let mut m = std::collections::BTreeMap::new();
+    for b in blocks {
+        for t in &b.transactions {
+            for s in &t.from {
+                if s.amount > 0 {
+                    m.remove(&key_of(s).to_vec());
+                }
+            }
+            for s in &t.to {
+                if s.amount > 0 {
+                    m.insert(key_of(s).to_vec(), b.id);
+                }
+            }
+        }
+    }
+    m
+}
+
+/// C01 evaluated against the block history (not the node's utxo set): every input with an amount
+/// was created by a block of this chain and not consumed since; unless it is a Bound slip it is
+/// still inside the retention window for the next block
+fn history_violations(w: &World, tx: &Transaction) -> Vec<String> {
+    let ledger = history_ledger(&w.history);
+    let latest = w.history.last().map(|b| b.id).unwrap_or(0);
+    let mut v = vec![];
+    if matches!(tx.transaction_type, TransactionType::Fee | TransactionType::ATR | TransactionType::Issuance) {
+        return v;
+    }
+    for s in &tx.from {
+        if s.amount == 0 {
+            continue;
+        }
+        match ledger.get(&key_of(s).to_vec()) {
+            None => v.push(format!(
+                "input {}-{}-{} (amount {}, type {}) is not an unspent output of any block of the chain",
+                s.block_id, s.tx_ordinal, s.slip_index, s.amount, s.slip_type as u8
+            )),
+            Some(created) => {
+                if s.slip_type != SlipType::Bound && created + w.plan.gp < latest + 1 {
+                    v.push(format!("input {}-{}-{} was created by block {}: outside the window at tip {}", s.block_id, s.tx_ordinal, s.slip_index, created, latest));
+                }
+            }
+        }
+    }
+    v
 }
 
 fn slip_out(pk: SaitoPublicKey, amount: u64) -> Slip {
@@ -468,8 +686,20 @@ fn send_nft(n: &Nft, recipient: SaitoPublicKey, extra_from: Vec<Slip>, extra_to:
     raw_tx(TransactionType::Bound, from, to, sk, ts)
 }
 
+/// the private key of one of the world's keys
+fn sk_of(w: &World, pk: &SaitoPublicKey) -> Option<SaitoPrivateKey> {
+    for k in [1u8, 2, 3, 4] {
+        let kp = keypair(k);
+        if kp.0 == *pk {
+            return Some(kp.1);
+        }
+    }
+    let _ = w;
+    None
+}
+
 /// returns the adversarial transaction(s) for edit `e`; None if not applicable in this world
-async fn make_edit(w: &mut World, e: usize, ts: u64, rng: &mut Rng) -> Option<Vec<Transaction>> {
+async fn make_edit(w: &mut World, built: &Built, e: usize, ts: u64, rng: &mut Rng) -> Option<Vec<Transaction>> {
     let own = w.attacker_slips[rng.below(w.attacker_slips.len() as u64 - 1) as usize + 1].clone();
     let vic = w.victim_slips[rng.below(w.victim_slips.len() as u64) as usize].clone();
     let (apk, ask) = (w.attacker.0, w.attacker.1);
@@ -538,6 +768,252 @@ async fn make_edit(w: &mut World, e: usize, ts: u64, rng: &mut Rng) -> Option<Ve
         "expired-input" => {
             let s = w.expired_slip.clone()?;
             one(raw_tx(n, vec![s.clone()], vec![slip_out(apk, s.amount)], &ask, ts))
+        }
+        "window-edge-first-expired-atr" | "window-edge-last-valid-atr" => {
+            if latest < gp {
+                return None;
+            }
+            let id = if EDITS[e].name == "window-edge-first-expired-atr" { latest - gp } else { latest + 1 - gp };
+            let s = w.own_atr_by_block.iter().find(|(b, _)| *b == id).map(|(_, s)| s.clone())?;
+            one(raw_tx(n, vec![s.clone()], vec![slip_out(apk, s.amount)], &ask, ts))
+        }
+        "window-edge-last-valid" | "window-edge-first-expired" | "window-edge-expired-second-input" | "window-edge-expired-in-nft-create"
+        | "window-edge-expired-in-stake-tx" => {
+            if latest < gp {
+                return None;
+            }
+            let at = |id: u64| w.left_behind.iter().find(|(b, _)| *b == id).map(|(_, s)| s.clone());
+            let fresh = at(latest + 1 - gp)?;
+            let old = at(latest - gp)?;
+            match EDITS[e].name {
+                "window-edge-last-valid" => one(raw_tx(n, vec![fresh.clone()], vec![slip_out(apk, fresh.amount)], &ask, ts)),
+                "window-edge-first-expired" => one(raw_tx(n, vec![old.clone()], vec![slip_out(apk, old.amount)], &ask, ts)),
+                "window-edge-expired-second-input" => one(raw_tx(n, vec![fresh.clone(), old.clone()], vec![slip_out(apk, fresh.amount + old.amount)], &ask, ts)),
+                "window-edge-expired-in-nft-create" => {
+                    let mut input = old.clone();
+                    input.generate_utxoset_key();
+                    let uuid = Wallet::create_nft_uuid(&input, "c01");
+                    one(raw_tx(bd, vec![input.clone()], vec![slip_typed(apk, 1, SlipType::Bound), slip_out(apk, input.amount), slip_typed(uuid, 0, SlipType::Bound)], &ask, ts))
+                }
+                _ => one(raw_tx(st, vec![old.clone()], vec![slip_typed(apk, old.amount, SlipType::BlockStake)], &ask, ts)),
+            }
+        }
+        "duplicate-input-in-tx-atr" | "duplicate-input-in-tx-block-stake" | "duplicate-input-in-tx-miner-output" | "duplicate-input-in-tx-router-output"
+        | "same-input-in-two-txs-atr" | "same-input-in-two-txs-block-stake" | "same-input-in-two-txs-miner-output" => {
+            let name = EDITS[e].name;
+            let sl = if name.ends_with("-atr") {
+                w.own_atr.clone().or(w.foreign_atr.clone())?
+            } else if name.ends_with("-block-stake") {
+                w.foreign_stake.clone()?
+            } else if name.ends_with("-miner-output") {
+                w.foreign_miner_output.clone()?
+            } else {
+                w.foreign_router_output.clone()?
+            };
+            // signed by the owner of the slip: only the duplicate is wrong
+            let sk = sk_of(w, &sl.public_key)?;
+            let pk = sl.public_key;
+            if name.starts_with("duplicate") {
+                one(raw_tx(n, vec![sl.clone(), sl.clone()], vec![slip_out(pk, sl.amount * 2)], &sk, ts))
+            } else {
+                Some(vec![
+                    raw_tx(n, vec![sl.clone()], vec![slip_out(pk, sl.amount)], &sk, ts),
+                    raw_tx(n, vec![sl.clone()], vec![slip_out(apk, sl.amount)], &sk, ts + 1),
+                ])
+            }
+        }
+        "type-golden-ticket-zero-signature" | "type-vip-zero-signature" | "type-golden-ticket-foreign-input" | "type-vip-foreign-input"
+        | "type-golden-ticket-outputs-exceed-inputs" | "type-vip-outputs-exceed-inputs" => {
+            let name = EDITS[e].name;
+            let ty = if name.starts_with("type-golden") { TransactionType::GoldenTicket } else { TransactionType::Vip };
+            // a golden-ticket-typed transaction only travels with a 97-byte ticket as payload
+            // (the wire decoder refuses any other length, /repo eeb4ec7)
+            let data = if ty == TransactionType::GoldenTicket {
+                saito_core::core::consensus::golden_ticket::GoldenTicket::create(w.tip.hash, [3; 32], apk).serialize_for_net()
+            } else {
+                vec![]
+            };
+            let mk = |from: Vec<Slip>, to: Vec<Slip>| {
+                let mut t = Transaction::default();
+                t.transaction_type = ty;
+                t.timestamp = ts;
+                t.data = data.clone();
+                for mut sl in from {
+                    sl.generate_utxoset_key();
+                    t.add_from_slip(sl);
+                }
+                for sl in to {
+                    t.add_to_slip(sl);
+                }
+                t.sign(&ask);
+                t
+            };
+            if name.ends_with("zero-signature") {
+                let mut t = mk(vec![own.clone()], vec![slip_out(apk, own.amount)]);
+                t.signature = [0; 64];
+                one(t)
+            } else if name.ends_with("foreign-input") {
+                one(mk(vec![own.clone(), vic.clone()], vec![slip_out(apk, own.amount + vic.amount)]))
+            } else {
+                one(mk(vec![own.clone()], vec![slip_out(apk, own.amount + 1)]))
+            }
+        }
+        "resplit-output-as-input" => {
+            // the victim signs a payment of 1000 to the attacker with the change first:
+            //   from=[a]  to=[b = change 2_000_000 to himself (slip_index 0), c = 1000 to the attacker (1)]
+            // the attacker passes on, under the same signature,
+            //   from=[a, b']  to=[c (slip_index 1 as signed)]
+            // where b' is another unspent output of the victim with b's amount, slip_index 0 and type
+            let a = w.victim_slips[1].clone();
+            let b_alt = w.victim_slips[0].clone();
+            if a.amount != b_alt.amount + 1000 || b_alt.slip_index != 0 {
+                return None;
+            }
+            let signed = raw_tx(n, vec![a.clone()], vec![slip_out(vpk, b_alt.amount), slip_out(apk, 1000)], &vsk, ts);
+            let mut t = signed.clone();
+            let mut second = b_alt.clone();
+            second.generate_utxoset_key();
+            t.from.push(second);
+            t.to.remove(0);
+            // t.to[0] keeps slip_index 1, the value it was signed with
+            t.hash_for_signature = None;
+            if t.serialize_for_signature() != signed.serialize_for_signature() {
+                w.scenario_failure = Some("the re-split transaction does not have the signed bytes of the original".to_string());
+                return None;
+            }
+            one(t)
+        }
+        "type-spv-burns-own-input" => one(raw_tx(TransactionType::SPV, vec![own.clone()], vec![], &ask, ts)),
+        "type-spv-burns-foreign-input" => {
+            let mut t = raw_tx(TransactionType::SPV, vec![vic.clone()], vec![], &ask, ts);
+            t.signature = [7; 64];
+            one(t)
+        }
+        "type-spv-empty" => one(raw_tx(TransactionType::SPV, vec![], vec![], &ask, ts)),
+        "tamper-after-signing-output-amount" | "tamper-after-signing-output-key" | "tamper-after-signing-output-type" | "tamper-after-signing-input-key"
+        | "tamper-after-signing-data" | "tamper-after-signing-timestamp" | "tamper-after-signing-tx-type" | "tamper-after-signing-replacements" => {
+            // the victim pays the attacker 1000 and keeps the change; the attacker (or anybody on the
+            // route) alters one field and passes the transaction on with the victim's signature
+            let mut t = Transaction::default();
+            t.timestamp = ts;
+            t.data = vec![1, 2, 3, 4];
+            let mut i = vic.clone();
+            i.generate_utxoset_key();
+            t.add_from_slip(i);
+            t.add_to_slip(slip_out(apk, 1000));
+            t.add_to_slip(slip_out(vpk, vic.amount - 1000));
+            t.sign(&vsk);
+            match EDITS[e].name {
+                "tamper-after-signing-output-amount" => {
+                    t.to[0].amount += 500_000;
+                    t.to[1].amount -= 500_000;
+                }
+                "tamper-after-signing-output-key" => t.to[1].public_key = apk,
+                "tamper-after-signing-output-type" => t.to[1].slip_type = SlipType::ATR,
+                "tamper-after-signing-input-key" => {
+                    // another victim output of the same amount does not exist: the owner field alone
+                    t.from[0].public_key = apk;
+                }
+                "tamper-after-signing-data" => t.data[0] ^= 1,
+                "tamper-after-signing-timestamp" => t.timestamp += 1,
+                "tamper-after-signing-tx-type" => t.transaction_type = TransactionType::Vip,
+                _ => t.txs_replacements += 1,
+            }
+            // as received from the wire: the hash is recomputed by the receiver
+            t.hash_for_signature = None;
+            one(t)
+        }
+        "input-of-rejected-first-fork-block" => {
+            // the node is on ..T-B; a branch T-C1-C2 arrives whose FIRST block carries the signed spend
+            // of an output P that never existed (stored unvalidated: same length); C2 makes the
+            // branch longer, the reorganisation is tried, fails at C1 and is abandoned
+            let mut p = own.clone();
+            p.amount += 777;
+            let t0 = w.tip.clone();
+            let mk_carrier = |s: &Slip, at: u64| raw_tx(n, vec![s.clone()], vec![slip_out(apk, s.amount)], &ask, at);
+            let b = make_block(&w.node, t0.hash, t0.timestamp + 100_000, vec![mk_carrier(&w.attacker_slips[3], t0.timestamp + 100_000)], true, 9_011).await.ok()?;
+            if w.node.add_block(b.clone()).await != AddClass::OnChain {
+                w.scenario_failure = Some("the valid block B was not accepted".to_string());
+                return None;
+            }
+            // the builder accepts everything it is given up to C1: build C1 valid, C2 on it, then
+            // swap the phantom spend into C1 and re-sign C1 and C2 (C2 names C1 by hash)
+            let mut builder = fresh_world(built).await.node;
+            let c1_ts = t0.timestamp + 101_000;
+            let c1_carrier = mk_carrier(&w.attacker_slips[2], c1_ts);
+            let mut c1 = make_block(&builder, t0.hash, c1_ts, vec![c1_carrier.clone()], true, 9_012).await.ok()?;
+            let idx = c1.transactions.iter().position(|t| t.signature == c1_carrier.signature)?;
+            c1.transactions[idx] = raw_tx(n, vec![p.clone()], vec![slip_out(apk, p.amount)], &ask, c1_ts);
+            c1.merkle_root = [0; 32];
+            c1.generate().ok()?;
+            resign(&mut c1, &builder.sk);
+            // a valid twin of C1 for the builder to stand on
+            let c1v = make_block(&builder, t0.hash, c1_ts, vec![c1_carrier.clone()], true, 9_012).await.ok()?;
+            if builder.add_block(c1v.clone()).await != AddClass::OnChain {
+                return None;
+            }
+            let c2_ts = t0.timestamp + 140_000;
+            let mut c2 = make_block(&builder, c1v.hash, c2_ts, vec![mk_carrier(&w.attacker_slips[1], c2_ts)], true, 9_013).await.ok()?;
+            c2.previous_block_hash = c1.hash;
+            resign(&mut c2, &builder.sk);
+            let r1 = futures_catch(AssertUnwindSafe(w.node.add_block(c1.clone()))).await;
+            let r2 = futures_catch(AssertUnwindSafe(w.node.add_block(c2.clone()))).await;
+            if r1.is_err() || r2.is_err() {
+                w.scenario_failure = Some(format!("add_block panicked while the invalid branch was delivered: {:?} {:?}", r1, r2));
+                return None;
+            }
+            if r1 == Ok(AddClass::OnChain) || r2 == Ok(AddClass::OnChain) || w.node.blockchain.get_latest_block_hash() != b.hash {
+                w.scenario_failure = Some(format!(
+                    "after a branch whose first block spends a never-created output ({:?}, {:?}) the node is not back on its chain",
+                    r1, r2
+                ));
+                return None;
+            }
+            w.tip = b.clone();
+            w.history.push(b);
+            one(raw_tx(n, vec![p.clone()], vec![slip_out(apk, p.amount)], &ask, ts + 1))
+        }
+        "input-of-rejected-fork-block" => {
+            // the node is on ..T-B; a branch T-C1-C2 arrives whose second block carries a signed
+            // spend of an output P that never existed: the reorganisation is tried and abandoned.
+            // Afterwards the attacker spends P again.
+            let mut p = own.clone();
+            p.amount += 777;
+            let t0 = w.tip.clone();
+            let mk_carrier = |s: &Slip, at: u64| raw_tx(n, vec![s.clone()], vec![slip_out(apk, s.amount)], &ask, at);
+            let b = make_block(&w.node, t0.hash, t0.timestamp + 100_000, vec![mk_carrier(&w.attacker_slips[3], t0.timestamp + 100_000)], true, 9_001).await.ok()?;
+            if w.node.add_block(b.clone()).await != AddClass::OnChain {
+                return None;
+            }
+            let mut builder = fresh_world(built).await.node;
+            let c1 = make_block(&builder, t0.hash, t0.timestamp + 101_000, vec![mk_carrier(&w.attacker_slips[2], t0.timestamp + 101_000)], true, 9_002).await.ok()?;
+            if builder.add_block(c1.clone()).await != AddClass::OnChain {
+                return None;
+            }
+            let c2_ts = t0.timestamp + 140_000;
+            let c2_carrier = mk_carrier(&w.attacker_slips[1], c2_ts);
+            let mut c2 = make_block(&builder, c1.hash, c2_ts, vec![c2_carrier.clone()], true, 9_003).await.ok()?;
+            let idx = c2.transactions.iter().position(|t| t.signature == c2_carrier.signature)?;
+            c2.transactions[idx] = raw_tx(n, vec![p.clone()], vec![slip_out(apk, p.amount)], &ask, c2_ts);
+            c2.merkle_root = [0; 32];
+            c2.generate().ok()?;
+            resign(&mut c2, &builder.sk);
+            let r1 = futures_catch(AssertUnwindSafe(w.node.add_block(c1.clone()))).await;
+            let r2 = futures_catch(AssertUnwindSafe(w.node.add_block(c2.clone()))).await;
+            if r1.is_err() || r2.is_err() {
+                w.scenario_failure = Some(format!("add_block panicked while the invalid branch was delivered: {:?} {:?}", r1, r2));
+                return None;
+            }
+            if r1 == Ok(AddClass::OnChain) || r2 == Ok(AddClass::OnChain) || w.node.blockchain.get_latest_block_hash() != b.hash {
+                w.scenario_failure = Some(format!(
+                    "after a branch whose second block spends a never-created output ({:?}, {:?}) the node is not back on its chain",
+                    r1, r2
+                ));
+                return None;
+            }
+            w.tip = b.clone();
+            w.history.push(b);
+            one(raw_tx(n, vec![p.clone()], vec![slip_out(apk, p.amount)], &ask, ts + 1))
         }
         "unsigned-other-key" => {
             // signed by a key that owns nothing: from[0] is the victim's slip
@@ -764,8 +1240,30 @@ async fn make_edit(w: &mut World, e: usize, ts: u64, rng: &mut Rng) -> Option<Ve
 /// attacker's block: a consistent block around a valid zero-fee transaction of
 /// the attacker (plus the producer's staking transaction where required), whose
 /// carrier (or staking transaction) is then swapped for the adversarial one(s)
-async fn attacker_block(w: &World, adversarial: &[Transaction], stake_slot: bool, ts: u64, seed: u64) -> Option<Block> {
-    let own2 = w.attacker_slips[0].clone();
+async fn attacker_block(w: &World, adversarial: &[Transaction], stake_slot: bool, direct: bool, ts: u64, seed: u64) -> Option<Block> {
+    if direct {
+        // a fee-paying adversarial transaction: the block is produced around it (header values follow
+        // from its fee), then the fields the producer normalised are put back as the attacker sent them
+        let mut txs: Vec<Transaction> = adversarial.to_vec();
+        if w.plan.stake > 0 {
+            txs.push(stake_tx_of_node(&w.node).await?);
+        }
+        let mut b = make_block(&w.node, w.tip.hash, ts, txs, true, seed).await.ok()?;
+        for t in b.transactions.iter_mut() {
+            if let Some(orig) = adversarial.iter().find(|o| o.signature == t.signature) {
+                for (k, sl) in t.to.iter_mut().enumerate() {
+                    sl.slip_index = orig.to[k].slip_index;
+                }
+            }
+        }
+        // what a receiving node does first (VerificationThread::verify_block): generate
+        b.merkle_root = [0; 32];
+        b.generate().ok()?;
+        resign(&mut b, &w.node.sk);
+        return Some(b);
+    }
+    // genesis outputs are gone once the window has wrapped: the head of the attacker's chain then
+    let own2 = if w.plan.wrapped() { w.chain_head.clone() } else { w.attacker_slips[0].clone() };
     let carrier = raw_tx(TransactionType::Normal, vec![own2.clone()], vec![slip_out(w.attacker.0, own2.amount)], &w.attacker.1, ts);
     let mut txs = vec![carrier.clone()];
     let mut stake_sig = None;
@@ -787,6 +1285,13 @@ async fn attacker_block(w: &World, adversarial: &[Transaction], stake_slot: bool
     Some(b)
 }
 
+/// the abstract transaction of the first "(atx, verdict)" pair of a case
+fn abstract_tx_of_case(pairs: &[String]) -> String {
+    let p = &pairs[0];
+    let cut = p.rfind(", ").unwrap();
+    format!("({})", &p[1..cut])
+}
+
 fn be64(b: &[u8]) -> u64 {
     u64::from_be_bytes(b.try_into().unwrap())
 }
@@ -796,6 +1301,19 @@ fn abstract_tx(node: &Node, tx: &Transaction, int: &mut Interner) -> String {
     let slip = |s: &Slip, int: &mut Interner| {
         let spendable = node.blockchain.utxoset.get(&s.utxoset_key).copied().unwrap_or(false);
         let unlocked = node.blockchain.is_slip_unlocked(&s.utxoset_key);
+        if unlocked != unlocked_independent(node, &s.utxoset_key) {
+            DISCREPANCIES.lock().unwrap().push(format!(
+                "Blockchain::is_slip_unlocked says {} for {}-{}-{} (type {}, amount {}) at tip {}, the stated rule says {}",
+                unlocked,
+                be64(&s.utxoset_key[33..41]),
+                be64(&s.utxoset_key[41..49]),
+                s.utxoset_key[49],
+                s.utxoset_key[58],
+                be64(&s.utxoset_key[50..58]),
+                node.blockchain.get_latest_block_id(),
+                !unlocked
+            ));
+        }
         format!(
             "mkSlip {} {} {} {} {} {} {} {} {} {} {} {} {}",
             int.get(&s.public_key),
@@ -870,7 +1388,7 @@ const TX_TYPES: &[TransactionType] = &[
 ];
 
 /// valid transactions of the attacker in world `w` that the mutations start from
-async fn bases(w: &mut World, ts: u64) -> Vec<(&'static str, Transaction, SaitoPrivateKey)> {
+async fn bases(w: &mut World, built: &Built, ts: u64) -> Vec<(&'static str, Transaction, SaitoPrivateKey)> {
     let mut v = vec![];
     let mut r = Rng::new(ts);
     for name in [
@@ -884,7 +1402,7 @@ async fn bases(w: &mut World, ts: u64) -> Vec<(&'static str, Transaction, SaitoP
         "bound-creator-reclaims-deposit",
     ] {
         let e = EDITS.iter().position(|x| x.name == name).unwrap();
-        if let Some(mut t) = make_edit(w, e, ts, &mut r).await {
+        if let Some(mut t) = make_edit(w, built, e, ts, &mut r).await {
             let sk = if name == "stake-valid-producer" { w.node.sk } else { w.attacker.1 };
             v.push((name, t.remove(0), sk));
         }
@@ -1142,6 +1660,61 @@ async fn rule_probes(w: &mut World, ts: u64) -> Vec<(String, Transaction)> {
         let (npk, nsk) = (w.node.pk, w.node.sk);
         v.push(("stake:locked".to_string(), raw_tx(TransactionType::BlockStake, vec![l.clone()], vec![slip_typed(npk, l.amount, SlipType::BlockStake)], &nsk, ts)));
     }
+    // ---- the age rule: `block_id + genesis_period` on a block_id chosen by the sender
+    {
+        let own = w.attacker_slips[1].clone();
+        for (name, bid, amount) in [
+            ("huge-block-id", u64::MAX, 5u64),
+            ("huge-block-id-zero-amount", u64::MAX, 0),
+            ("wrapping-block-id", u64::MAX - w.plan.gp + 1, 5),
+            ("largest-non-wrapping-block-id", u64::MAX - w.plan.gp, 5),
+            ("future-block-id", w.node.blockchain.get_latest_block_id() + 50, 5),
+        ] {
+            let mut s = slip_out(apk, amount);
+            s.block_id = bid;
+            v.push((format!("age:{}", name), raw_tx(TransactionType::Normal, vec![own.clone(), s], vec![slip_out(apk, own.amount)], &ask, ts)));
+        }
+        let mut s = slip_typed(apk, 5, SlipType::Bound);
+        s.block_id = u64::MAX;
+        v.push(("age:huge-block-id-bound-slip".to_string(), raw_tx(TransactionType::Bound, vec![own.clone(), s], vec![slip_out(apk, own.amount)], &ask, ts)));
+    }
+    // ---- further single rules
+    {
+        let own = w.attacker_slips[1].clone();
+        let mut t = raw_tx(TransactionType::Normal, vec![own.clone()], vec![slip_out(apk, own.amount)], &ask, ts);
+        t.hash_for_signature = None;
+        v.push(("normal:no-hash".to_string(), t));
+        v.push(("normal:no-outputs".to_string(), raw_tx(TransactionType::Normal, vec![own.clone()], vec![], &ask, ts)));
+        v.push(("normal:no-inputs".to_string(), raw_tx(TransactionType::Normal, vec![], vec![slip_out(apk, 0)], &ask, ts)));
+        // the same zero-amount input twice in a staking transaction (the keys-unique rule)
+        let z = slip_out(apk, 0);
+        v.push(("stake:dup-zero-input".to_string(), raw_tx(TransactionType::BlockStake, vec![own.clone(), z.clone(), z.clone()], vec![slip_typed(apk, own.amount, SlipType::BlockStake)], &ask, ts)));
+        for ty in [TransactionType::SPV] {
+            v.push(("spv:own-input-zero-out".to_string(), raw_tx(ty, vec![own.clone()], vec![], &ask, ts)));
+            v.push(("spv:zero-input-zero-out".to_string(), raw_tx(ty, vec![slip_out(apk, 0)], vec![slip_out(apk, 0)], &ask, ts)));
+            v.push(("spv:bound-input".to_string(), raw_tx(ty, vec![slip_typed(apk, 5, SlipType::Bound)], vec![], &ask, ts)));
+            v.push(("spv:empty".to_string(), raw_tx(ty, vec![], vec![], &ask, ts)));
+        }
+        if let (Some(a0), Some(a2a)) = (w.nft_a0.clone(), w.nft_a2a.clone()) {
+            // send rule `from[2].amount != 0`: a real Bound slip with an amount in third position
+            // (the first slip of another NFT of the attacker), mirrored in the outputs
+            let third = a2a.slips[0].clone();
+            let mut f0 = a0.slips[0].clone();
+            let mut f1 = a0.slips[1].clone();
+            // make the coordinates line up with `third`: same block, ordinal of `third`, indexes below it
+            let _ = (&mut f0, &mut f1);
+            v.push((
+                "send:from2-real-amount".to_string(),
+                raw_tx(
+                    TransactionType::Bound,
+                    vec![a0.slips[0].clone(), a0.slips[1].clone(), third.clone()],
+                    vec![a0.slips[0].clone(), slip_out(apk, 0), third.clone()],
+                    &ask,
+                    ts,
+                ),
+            ));
+        }
+    }
     // ---- Bound slips elsewhere, slip count limits
     let own = w.attacker_slips[1].clone();
     v.push(("normal:bound-zero-input".to_string(), raw_tx(TransactionType::Normal, vec![own.clone(), zero_bound.clone()], vec![slip_out(apk, own.amount)], &ask, ts)));
@@ -1186,11 +1759,12 @@ async fn main() {
         Plan { gp: 5, len: 8, stake: 0, nft: false, fee: 0 },
         Plan { gp: 8, len: 3, stake: STAKE, nft: false, fee: 0 },
         Plan { gp: 4, len: 7, stake: 0, nft: false, fee: 0 },
+        Plan { gp: 4, len: 12, stake: 0, nft: false, fee: 0 },
         Plan { gp: 20, len: 4, stake: 0, nft: false, fee: 7_000 },
     ];
     if thorough {
         for _ in 0..14 {
-            let (gp, len) = *rng.pick(&[(20u64, 2usize), (20, 5), (5, 8), (4, 7), (8, 3), (12, 6), (30, 1)]);
+            let (gp, len) = *rng.pick(&[(20u64, 2usize), (20, 5), (5, 8), (4, 7), (4, 12), (5, 14), (8, 3), (12, 6), (30, 1)]);
             let wrapped = (len as u64) + 1 > gp + 1;
             plans.push(Plan {
                 gp,
@@ -1205,7 +1779,16 @@ async fn main() {
     for (wi, plan) in plans.iter().enumerate() {
         let mut brng = Rng::new(args.seed * 1000 + wi as u64);
         let built = build_blocks(*plan, &mut brng).await;
-        let env = |w: &World| format!("mkEnv {} {}", w.node.blockchain.social_stake_requirement, gal::boolean(ovf));
+        let env = |w: &World, int: &mut Interner| {
+            format!(
+                "mkEnv {} {} {} {} {}",
+                w.node.blockchain.social_stake_requirement,
+                gal::boolean(ovf),
+                w.node.blockchain.get_latest_block_id(),
+                w.node.blockchain.genesis_period,
+                int.get(&w.node.pk)
+            )
+        };
         let world_desc = format!(
             "\"genesis_period\":{},\"chain_len\":{},\"social_stake\":{},\"nfts_on_chain\":{},\"fee_per_block\":{}",
             plan.gp,
@@ -1214,6 +1797,7 @@ async fn main() {
             plan.nft,
             plan.fee
         );
+        let mut world_checked = false;
         for (e, edit) in EDITS.iter().enumerate() {
             let applicable = match edit.needs {
                 Needs::Wrapped => plan.wrapped(),
@@ -1221,21 +1805,41 @@ async fn main() {
                 Needs::Nft => !plan.wrapped() && plan.nft,
                 Needs::Staking => !plan.wrapped() && plan.stake > 0,
                 Needs::Payouts => !plan.wrapped() && plan.fee > 0 && plan.len >= 3,
+                Needs::Fork => !plan.wrapped() && plan.stake == 0,
             };
             if !applicable {
                 continue;
             }
-            for venue in ["pool", "block"] {
-                if venue == "pool" && edit.venues == Venues::BlockOnly {
+            for venue in ["pool", "block", "verify"] {
+                if venue != "block" && edit.venues == Venues::BlockOnly {
                     continue;
                 }
                 // a fresh node per case (the world's blocks replayed) so cases do not interfere
                 let mut w = fresh_world(&built).await;
+                if !world_checked {
+                    // once per world: the node's ledger is the one the block history describes
+                    world_checked = true;
+                    for d in ledger_discrepancies(&w) {
+                        summary.oracle_failure(case_no, &format!("after the world's blocks: {}", d), &format!("{{\"case\":{},\"edit\":\"world\",{}}}", case_no, world_desc));
+                    }
+                }
                 let ts = w.tip.timestamp + 150_000;
-                let txs = match make_edit(&mut w, e, ts, &mut rng).await {
+                let txs = match make_edit(&mut w, &built, e, ts, &mut rng).await {
                     Some(t) => t,
-                    None => continue,
+                    None => {
+                        if let Some(why) = w.scenario_failure.take() {
+                            // a scripted scenario that cannot be played is a finding, not a skipped case
+                            summary.oracle_failure(case_no, &format!("[{}] {}", edit.name, why), &format!("{{\"case\":{},\"edit\":\"{}\",\"venue\":\"{}\",{}}}", case_no, edit.name, venue, world_desc));
+                            summary.case_descs.push(format!("{{\"case\":{},\"edit\":\"{}\",\"venue\":\"{}\",{}}}", case_no, edit.name, venue, world_desc));
+                            coq_cases.push("(mkEnv 0 true 0 0 0, [], None, None, None)".to_string());
+                            case_no += 1;
+                        } else {
+                            summary.count("edit_not_applicable", edit.name);
+                        }
+                        continue;
+                    }
                 };
+                DISCREPANCIES.lock().unwrap().clear();
                 let mut int = Interner::default();
                 let mut generated: Vec<Transaction> = txs.clone();
                 let mut gen_panicked = false;
@@ -1261,8 +1865,24 @@ async fn main() {
                     verdicts.push(code);
                     pairs.push(format!("({}, {})", abstract_tx(&w.node, t, &mut int), code));
                 }
-                let env_s = env(&w);
+                let env_s = env(&w, &mut int);
                 let mut block_part = "None".to_string();
+                let mut pool_part = "None".to_string();
+                let mut verify_part = "None".to_string();
+                // the cached utxo key of every slip is the key of its fields (Slip::generate_utxoset_key
+                // / get_utxoset_key against the byte layout restated in the harness)
+                for t in generated.iter() {
+                    for sl in t.from.iter().chain(t.to.iter()) {
+                        if sl.utxoset_key != key_of(sl) || sl.get_utxoset_key() != key_of(sl) {
+                            DISCREPANCIES.lock().unwrap().push(format!(
+                                "utxo key of slip {}-{}-{} (amount {}, type {}) is not the concatenation of its fields",
+                                sl.block_id, sl.tx_ordinal, sl.slip_index, sl.amount, sl.slip_type as u8
+                            ));
+                        }
+                    }
+                }
+                // the property against the block history, decided before the venue is tried
+                let hist: Vec<String> = generated.iter().flat_map(|t| history_violations(&w, t)).collect();
                 summary.count("edit", edit.name);
                 summary.count("venue", venue);
                 summary.count("world", &format!("gp{}-len{}-stake{}-nft{}-fee{}", plan.gp, plan.len + 1, plan.stake, plan.nft, plan.fee));
@@ -1278,6 +1898,21 @@ async fn main() {
                     match r {
                         Ok(()) => {
                             accepted = w.node.mempool.transactions.contains_key(&sig);
+                            pool_part = format!("Some ({}, {})", abstract_tx_of_case(&pairs), gal::boolean(accepted));
+                            // whatever the pool holds now (also what a failed block handed back) must
+                            // satisfy the property against the block history
+                            let mut pooled: Vec<&Transaction> = w.node.mempool.transactions.values().collect();
+                            pooled.sort_by_key(|t| t.signature);
+                            for t in pooled {
+                                let hv = history_violations(&w, t);
+                                if !hv.is_empty() {
+                                    summary.oracle_failure(
+                                        case_no,
+                                        &format!("[{}] the pool holds transaction {} although, by the chain's block history: {}", edit.name, tx_desc(t), hv.join("; ")),
+                                        &desc,
+                                    );
+                                }
+                            }
                             what = format!("pool {} the transaction", if accepted { "accepted" } else { "rejected" });
                         }
                         Err(m) => {
@@ -1285,12 +1920,96 @@ async fn main() {
                             summary.oracle_failure(case_no, &format!("[{}] {}", edit.name, what), &desc);
                         }
                     }
+                } else if venue == "verify" {
+                    // the route of a transaction received from a peer: VerificationThread::verify_tx /
+                    // verify_txs forward it to the consensus thread iff it validates; the consensus
+                    // thread hands it to Mempool::add_transaction_if_validates (golden tickets go to
+                    // the ticket pool directly)
+                    let t = txs[0].clone();
+                    let sig = t.signature;
+                    let bc = std::mem::replace(
+                        &mut w.node.blockchain,
+                        Blockchain::new(w.node.wallet_lock.clone(), plan.gp, plan.stake, STAKE_PERIOD),
+                    );
+                    let lock = std::sync::Arc::new(tokio::sync::RwLock::new(bc));
+                    let (tx_cons, mut rx_cons) = tokio::sync::mpsc::channel::<ConsensusEvent>(64);
+                    let (tx_stat, _rx_stat) = tokio::sync::mpsc::channel::<String>(4096);
+                    let sv = |n: &str| StatVariable::new(n.to_string(), STAT_BIN_COUNT, tx_stat.clone());
+                    let mut vt = VerificationThread {
+                        sender_to_consensus: tx_cons.clone(),
+                        blockchain_lock: lock.clone(),
+                        peer_lock: std::sync::Arc::new(tokio::sync::RwLock::new(PeerCollection::default())),
+                        wallet_lock: w.node.wallet_lock.clone(),
+                        processed_txs: sv("verification::processed_txs"),
+                        processed_blocks: sv("verification::processed_blocks"),
+                        processed_msgs: sv("verification::processed_msgs"),
+                        invalid_txs: sv("verification::invalid_txs"),
+                        stat_sender: tx_stat.clone(),
+                    };
+                    let mut drain = |rx: &mut tokio::sync::mpsc::Receiver<ConsensusEvent>| -> Vec<Transaction> {
+                        let mut v = vec![];
+                        while let Ok(ev) = rx.try_recv() {
+                            match ev {
+                                ConsensusEvent::NewTransaction { transaction } => v.push(transaction),
+                                ConsensusEvent::NewTransactions { transactions } => v.extend(transactions),
+                                _ => {}
+                            }
+                        }
+                        v
+                    };
+                    let r1 = futures_catch(AssertUnwindSafe(vt.verify_tx(t.clone()))).await;
+                    let fwd1 = drain(&mut rx_cons);
+                    let mut dq: std::collections::VecDeque<Transaction> = txs.iter().cloned().collect();
+                    let r2 = futures_catch(AssertUnwindSafe(vt.verify_txs(&mut dq))).await;
+                    let fwd2 = drain(&mut rx_cons);
+                    drop(vt);
+                    w.node.blockchain = match std::sync::Arc::try_unwrap(lock) {
+                        Ok(l) => l.into_inner(),
+                        Err(_) => panic!("verification thread kept the blockchain"),
+                    };
+                    if let Err(m) = r1.as_ref().and(r2.as_ref()) {
+                        what = format!("verification thread panicked: {}", m);
+                        summary.oracle_failure(case_no, &format!("[{}] {}", edit.name, what), &desc);
+                    } else {
+                        let f1 = fwd1.iter().any(|x| x.signature == sig);
+                        let f2 = fwd2.iter().any(|x| x.signature == sig);
+                        let valid = verdicts[0] == 1;
+                        verify_part = format!("Some ({}, {})", abstract_tx_of_case(&pairs), gal::boolean(f1));
+                        if f1 != valid || f2 != valid || fwd1.len() > 1 || fwd2.len() != verdicts.iter().filter(|c| **c == 1).count() {
+                            summary.oracle_failure(
+                                case_no,
+                                &format!(
+                                    "[{}] Transaction::validate says {} but verify_tx forwarded {} and verify_txs forwarded {} transaction(s) to the consensus thread",
+                                    edit.name,
+                                    if valid { "valid" } else { "invalid" },
+                                    fwd1.len(),
+                                    fwd2.len()
+                                ),
+                                &desc,
+                            );
+                        }
+                        if f1 {
+                            // what the consensus thread does with it
+                            let fwd = fwd1.into_iter().next().unwrap();
+                            if fwd.transaction_type == TransactionType::GoldenTicket {
+                                accepted = true;
+                                what = "forwarded by the verification thread; golden tickets are pooled without a further check".to_string();
+                            } else {
+                                let r = futures_catch(AssertUnwindSafe(w.node.mempool.add_transaction_if_validates(fwd, &w.node.blockchain))).await;
+                                accepted = r.is_ok() && w.node.mempool.transactions.contains_key(&sig);
+                                what = format!("forwarded by the verification thread, pool {} it", if accepted { "accepted" } else { "rejected" });
+                            }
+                        } else {
+                            what = "dropped by the verification thread".to_string();
+                        }
+                    }
                 } else {
-                    let ab = futures_catch(AssertUnwindSafe(attacker_block(&w, &txs, edit.stake_slot, ts, case_no as u64))).await;
+                    let ab = futures_catch(AssertUnwindSafe(attacker_block(&w, &txs, edit.stake_slot, edit.name == "resplit-output-as-input", ts, case_no as u64))).await;
                     match ab.unwrap_or(None) {
                         None => {
                             what = "attacker block could not be assembled".to_string();
                             summary.count("attacker_block", "not-assembled");
+                            summary.oracle_failure(case_no, &format!("[{}] the attacker's block could not be assembled with the real producer", edit.name), &desc);
                         }
                         Some(b) => {
                             let carried = txs.iter().all(|t| b.transactions.iter().any(|x| x.signature == t.signature));
@@ -1307,6 +2026,36 @@ async fn main() {
                                     accepted = c == AddClass::OnChain && carried;
                                     block_added = c == AddClass::OnChain;
                                     what = format!("block result {:?}", c);
+                                    if block_added {
+                                        // the ledger after an accepted block is the history's ledger
+                                        w.history.push(b.clone());
+                                        for d in ledger_discrepancies(&w) {
+                                            summary.oracle_failure(case_no, &format!("[{}] after the accepted block: {}", edit.name, d), &desc);
+                                        }
+                                    }
+                                    // whatever the block's fate, what the pool holds afterwards (transactions
+                                    // handed back by add_block_transactions_back) validates and satisfies the
+                                    // property against the block history
+                                    let mut pooled: Vec<&Transaction> = w.node.mempool.transactions.values().collect();
+                                    pooled.sort_by_key(|t| t.signature);
+                                    for t in pooled {
+                                        let rv = real_verdict(&w.node, t);
+                                        let hv = history_violations(&w, t);
+                                        if rv != 1 || !hv.is_empty() {
+                                            summary.oracle_failure(
+                                                case_no,
+                                                &format!(
+                                                    "[{}] after the block ({:?}) the pool holds transaction {}: Transaction::validate verdict {}{}",
+                                                    edit.name,
+                                                    c,
+                                                    tx_desc(t),
+                                                    rv,
+                                                    if hv.is_empty() { String::new() } else { format!("; by the block history: {}", hv.join("; ")) }
+                                                ),
+                                                &desc,
+                                            );
+                                        }
+                                    }
                                 }
                                 Err(m) => {
                                     what = format!("add_block panicked: {}", m);
@@ -1323,13 +2072,23 @@ async fn main() {
                     }
                     block_part = format!("Some ({}, {}, {})", id, gal::list(&abs), gal::boolean(block_added));
                 }
-                coq_cases.push(format!("({}, {}, {})", env_s, gal::list(&pairs), block_part));
+                coq_cases.push(format!("({}, {}, {}, {}, {})", env_s, gal::list(&pairs), block_part, pool_part, verify_part));
+                for d in DISCREPANCIES.lock().unwrap().drain(..) {
+                    summary.oracle_failure(case_no, &format!("[{}] {}", edit.name, d), &desc);
+                }
+                if accepted && !hist.is_empty() {
+                    summary.oracle_failure(
+                        case_no,
+                        &format!("[{}] accepted via {} although, by the chain's block history: {}", edit.name, venue, hist.join("; ")),
+                        &desc,
+                    );
+                }
                 summary.count("outcome", &format!("{}:{}:{}", edit.name, venue, if accepted { "accepted" } else { "rejected" }));
                 match edit.expect {
                     Reject if accepted => {
                         let id = match edit.known {
                             Some(k) => k.to_string(),
-                            None => format!("{}-{}", edit.name, venue),
+                            None => format!("{}-{}", edit.name, if venue == "verify" { "pool" } else { venue }),
                         };
                         summary.known_hit(&id, case_no, &format!("{} ({}) violates SpendOK but: {}", edit.name, venue, what));
                     }
@@ -1337,7 +2096,7 @@ async fn main() {
                     // nothing about that, the Accept expectation is only a sanity check of the harness
                     Accept
                         if !accepted
-                            && venue == "pool"
+                            && venue != "block"
                             && txs[0].transaction_type == TransactionType::BlockStake
                             && txs[0].from.iter().any(|i| i.public_key != w.node.pk) =>
                     {
@@ -1365,7 +2124,7 @@ async fn main() {
         // scripted overflow cases, judged by the real Transaction::validate at the tip
         let mut w = fresh_world(&built).await;
         let ts = w.tip.timestamp + 150_000;
-        let base = bases(&mut w, ts).await;
+        let base = bases(&mut w, &built, ts).await;
         let mut scripted: Vec<(String, Transaction)> = overflow_cases(&w, ts).into_iter().map(|(n, t)| (n.to_string(), t)).collect();
         scripted.extend(rule_probes(&mut w, ts).await);
         for k in 0..n_fuzz + scripted.len() {
@@ -1419,7 +2178,14 @@ async fn main() {
                 tx_desc(&t),
                 code
             );
-            coq_cases.push(format!("({}, [({}, {})], None)", env(&w), abstract_tx(&w.node, &t, &mut int), code));
+            let env_s = env(&w, &mut int);
+            DISCREPANCIES.lock().unwrap().clear();
+            coq_cases.push(format!("({}, [({}, {})], None, None, None)", env_s, abstract_tx(&w.node, &t, &mut int), code));
+            if tamper > 2 {
+                for d in DISCREPANCIES.lock().unwrap().drain(..) {
+                    summary.oracle_failure(case_no, &format!("[mutation:{}] {}", label, d), &desc);
+                }
+            }
             summary.count("mutation_verdict", &format!("type{}:{}", t.transaction_type as u8, code));
             if tamper == 99 {
                 summary.count("scripted_verdict", &format!("{}={}", label, code));
@@ -1433,11 +2199,13 @@ async fn main() {
     }
     summary.evaluations = case_no as u64;
     let header = "From Saito Require Import Base TxValid.\n\
-        Definition check (c : env * list (atx * N) * option (N * list atx * bool)) : bool :=\n  \
-        let '(e, l, b) := c in\n  \
+        Definition check (c : env * list (atx * N) * option (N * list atx * bool) * option (atx * bool) * option (atx * bool)) : bool :=\n  \
+        let '(e, l, b, p, v) := c in\n  \
+        match v with None => true | Some (t, fwd) => Bool.eqb fwd (N.eqb (verdict_code (tx_validate e t)) 1) end &&\n  \
+        match p with None => true | Some (t, taken) => implb taken (pool_gate e t) end &&\n  \
         forallb (fun p => N.eqb (verdict_code (tx_validate e (fst p))) (snd p)) l &&\n  \
         match b with None => true | Some (id, txs, added) => implb added (block_txs_ok e id txs) end.";
-    let files = gal::write_shards(&format!("{}/cases", args.out), "C01", header, "env * list (atx * N) * option (N * list atx * bool)", &coq_cases, args.shards).unwrap();
+    let files = gal::write_shards(&format!("{}/cases", args.out), "C01", header, "env * list (atx * N) * option (N * list atx * bool) * option (atx * bool) * option (atx * bool)", &coq_cases, args.shards).unwrap();
     summary.case_files = files;
     summary.notes.push(format!("{} cases: Transaction::validate verdicts compared with TxValid.tx_validate", coq_cases.len()));
     summary.write(&args.out);
